@@ -126,6 +126,16 @@ func (p *Plug) enter(kind string) *CB {
 		p.NCaps++
 	case "open":
 		p.NOpen++
+		if p.Oracle {
+			if cb.Conn == nil {
+				p.viol("onopen-unattributable", "OnOpenMessage by task %s which has sent no OPEN on any connection", task)
+			} else {
+				cb.Conn.OpenCBs++
+				if cb.Conn.OpenCBs > 1 {
+					p.viol("onopen-twice", "OnOpenMessage invoked %d times for connection %s", cb.Conn.OpenCBs, cb.Conn)
+				}
+			}
+		}
 	}
 	simrt.Yield("plugin." + kind + ".in")
 	return cb
